@@ -109,6 +109,13 @@ func (r *yieldRewriter) rewriteRanges(block *ast.BlockStmt) {
 					do(cstNewIntegerIter, x)
 				}
 			case *types.Array:
+				if _, ignoreVal := r.ignoreKeyVal(n.Key, n.Value); ignoreVal && !hasCallOrRecv(n.X) && !r.isPlainVar(n.X) {
+					// at most one iteration variable and len(x) is constant: the range expression isn't evaluated
+					// (for i := range p.arr is fine with a nil p, for i := range grid[9] with a short grid),
+					// only the keys 0..len(x)-1 are produced. evaluating a plain variable can't fail, it's still sliced
+					do(cstNewIntegerIter, X.Call(X.Ident("len"), n.X))
+					return true
+				}
 				// typing workaround for abstract generic array iter
 				// type can't be infered from array, so we wrap it with slice
 				arr := n.X
@@ -133,6 +140,36 @@ func (r *yieldRewriter) rewriteRanges(block *ast.BlockStmt) {
 		}
 		return true
 	})
+}
+
+// whether evaluating the expr calls a func or receives from a chan (len(x) of such an array isn't constant)
+func hasCallOrRecv(expr ast.Expr) (has bool) {
+	ast.Inspect(expr, func(n ast.Node) bool {
+		switch n := n.(type) {
+		case *ast.CallExpr:
+			has = true
+		case *ast.UnaryExpr:
+			has = has || n.Op == token.ARROW
+		}
+		return !has
+	})
+	return
+}
+
+// variable, or field of a variable reached without dereferencing a pointer
+func (r *yieldRewriter) isPlainVar(expr ast.Expr) bool {
+	switch expr := expr.(type) {
+	case *ast.Ident:
+		return true
+	case *ast.ParenExpr:
+		return r.isPlainVar(expr.X)
+	case *ast.SelectorExpr:
+		if sel := r.pkg.TypeInfo().Selections[expr]; sel != nil {
+			return sel.Kind() == types.FieldVal && !sel.Indirect() && r.isPlainVar(expr.X)
+		}
+		return true // pkg.Var
+	}
+	return false
 }
 
 // whether the array expr can be sliced directly (variable, field, element, dereference)
